@@ -39,6 +39,7 @@ def run(ctx: Ctx):
     n += rc.run_format(ctx, rt, "C07", "csv", (("round", "8"),))
     n += rc.run_format(ctx, rt, "C07", "excel", None)
     n += rc.run_format(ctx, rt, "C07", "aif", None)
+    rc.r_branch_canon(ctx, rt, "C07")
     r_refuse(ctx, rt)
     # AIF rounds with the same constant
     import ast
